@@ -465,6 +465,99 @@ func RunPure(c *core.Ctx) {
 			c.Ok("PURE", con, "no store to memory reachable from the receiver, parameters or globals; all callees in the effect summary table", p, src)
 		}
 	}
+	// the runtime helpers that the effect summary table calls "pure" are checked to be so: they (and what they
+	// call inside the package) neither write nor take the address of package-level variables, and start no goroutine
+	if rp := c.Pkg("runtime"); rp != nil {
+		fns := core.FuncDecls(rp)
+		pkgVars := map[types.Object]bool{}
+		for _, nm := range rp.Types.Scope().Names() {
+			if v, ok := rp.Types.Scope().Lookup(nm).(*types.Var); ok {
+				pkgVars[v] = true
+			}
+		}
+		var names []string
+		for q := range pureCallees {
+			if strings.HasPrefix(q, core.RepoModule+"/runtime.") {
+				names = append(names, strings.TrimPrefix(q, core.RepoModule+"/runtime."))
+			}
+		}
+		sort.Strings(names)
+		for _, nm := range names {
+			fd := fns[nm]
+			con := "runtime." + nm + " effect"
+			if fd == nil || fd.Body == nil {
+				c.Undec("PURE", con, "helper listed in the effect summary table not found", "", "S0")
+				continue
+			}
+			n++
+			var probs []string
+			seen := map[string]bool{}
+			var scan func(f *ast.FuncDecl)
+			scan = func(f *ast.FuncDecl) {
+				if seen[f.Name.Name] {
+					return
+				}
+				seen[f.Name.Name] = true
+				rootVar := func(x ast.Expr) *ast.Ident {
+					for {
+						switch t := x.(type) {
+						case *ast.ParenExpr:
+							x = t.X
+						case *ast.SelectorExpr:
+							x = t.X
+						case *ast.IndexExpr:
+							x = t.X
+						case *ast.StarExpr:
+							x = t.X
+						case *ast.SliceExpr:
+							x = t.X
+						case *ast.Ident:
+							if pkgVars[rp.TypesInfo.ObjectOf(t)] {
+								return t
+							}
+							return nil
+						default:
+							return nil
+						}
+					}
+				}
+				ast.Inspect(f.Body, func(x ast.Node) bool {
+					switch t := x.(type) {
+					case *ast.AssignStmt:
+						if t.Tok != token.DEFINE {
+							for _, l := range t.Lhs {
+								if id := rootVar(l); id != nil {
+									probs = append(probs, f.Name.Name+" writes package variable "+id.Name)
+								}
+							}
+						}
+					case *ast.IncDecStmt:
+						if id := rootVar(t.X); id != nil {
+							probs = append(probs, f.Name.Name+" modifies package variable "+id.Name)
+						}
+					case *ast.UnaryExpr:
+						if t.Op == token.AND {
+							if id := rootVar(t.X); id != nil {
+								probs = append(probs, f.Name.Name+" takes the address of package variable "+id.Name+" (writes through the pointer are shared by all callers)")
+							}
+						}
+					case *ast.GoStmt:
+						probs = append(probs, f.Name.Name+" starts a goroutine")
+					case *ast.CallExpr:
+						if o, ok := core.CalleeObj(rp.TypesInfo, t).(*types.Func); ok && o.Pkg() == rp.Types {
+							if cf := fns[o.Name()]; cf != nil && cf.Body != nil {
+								scan(cf)
+							}
+						}
+					}
+					return true
+				})
+			}
+			scan(fd)
+			sort.Strings(probs)
+			c.Check(len(probs) == 0, "PURE", con, "no write to, or address of, a package-level variable; no goroutine", "helper used by read-only operations has a shared-memory effect: "+strings.Join(uniq(probs), "; "), c.PosStr(rp.Fset, fd.Pos()), "S0")
+		}
+	}
 	for _, g := range sources(c) {
 		src := g.Source
 		for _, m := range g.Msgs {
